@@ -881,9 +881,14 @@ class StrainEnergy:
             3x3 rotation matrix
         '''
         self.rotation = np.array(rot)
+        # re-apply the rotation if the elastic constants were supplied first
+        if self._unrotated_cMatrix_4th.any():
+            self.update()
 
     def setRotationPrecipitate(self, rot):
         self.rotationPrec = np.array(rot)
+        if self._unrotated_cMatrix_4th.any():
+            self.update()
 
     def setEigenstrain(self, strain):
         '''
